@@ -34,6 +34,7 @@ var vmExprs = []struct{ name, expr string }{
 	{"partial-application", `map-parallel {36,42,7} (add 5)`},
 	{"failing-lambda", `map-parallel {4,2,0,1} {x -> divide 100 x}`},
 	{"failing-closure", `call {a -> map-parallel {4,0,1} {x -> divide a x}} 100`},
+	{"over-a-failing-map", `map-parallel (map {4,2,0,1} {x -> divide 100 x}) {y -> add y 1}`},
 	{"closure-two-levels", `call {a -> call {b -> map-parallel {1,2,3} {x -> add (add x a) b}} 3} 10`},
 	{"closure-five-items", `call {a -> map-parallel {36,42,7,9,11} {x -> add (add x x) a}} 10`},
 	{"nested-outer-of-inner", `map-parallel (map-parallel {1,2} {x -> add x 1}) {y -> add y y}`},
@@ -42,7 +43,7 @@ var vmExprs = []struct{ name, expr string }{
 
 func vmScenarios(tier string) []vmScenario {
 	var out []vmScenario
-	n, cores := 5, []int{2}
+	n, cores := 6, []int{2}
 	if tier == "thorough" {
 		n, cores = len(vmExprs), []int{2, 3}
 	}
